@@ -311,8 +311,14 @@ def run_task(task):
       step_want = P.T @ (inv_s * pg) + inv_a * (g_ - P.T @ pg)
       dw = (np.asarray(s["w"], np.float64).ravel() - w) / lr
       sc_ = max(np.max(np.abs(step_want)), 1e-300)
-      if (0 < alpha < 1e-10 * max(float(np.max(alpha + s_)), 1e-300)) or \
+      lam_ = alpha + s_
+      if (0 < alpha < 1e-10 * max(float(np.max(lam_)), 1e-300)) or \
+          np.any((lam_ > 0) & (lam_ < 1e-20 * max(float(np.max(lam_)),
+                                                   1e-300))) or \
           np.max(np.abs(s["w"])) * 2.0**-52 > 1e-9 * sc_:
+        # (a numerically - not exactly - zero eigenvalue of the sketch passes
+        # the > 0 guard and amplifies rounding noise by its inverse root;
+        # seen after a zero gradient with delta = 0 in dimension 5)
         # (or an earlier noise-amplified step left an iterate so large that
         # this step cannot be resolved in the difference of iterates)
         # delta = 0 and a numerically (not exactly) zero escaped mass: the
